@@ -98,6 +98,60 @@ def closure_is_lowercase(cx, crate, clo):
     return highbit_preserving(e, ("param", 2))
 
 
+def prefix_helper(cx, crate, e, S):
+    """If e = helper(as_bytes(s(S)), as_bytes(v)) for a crate-local boolean helper recognised (semspec.forall_loop) as
+    `len(v) <= len(s) && for (a, b) in zip(s bytes, v bytes) { fold(a) == b }` with a high-bit-preserving fold:
+    (v, 'lower' | 'highbit'); else None."""
+    from .. import sem
+    from . import semspec
+    if e[0] != "call" or len(e[2]) != 2:
+        return None
+    H, N = e[2]
+    if not (is_call(H, "as_bytes") and H[2] and is_state_s(H[2][0], S) and is_call(N, "as_bytes") and N[2]):
+        return None
+    v = N[2][0]
+    target = e[3] or e[1]
+    if target not in crate.fns or "mir" not in crate.fns[target]:
+        return None
+    try:
+        sm = sem.Sem(cx, crate).summarize(target)
+    except sem.SemLimit:
+        return None
+    fl = semspec.forall_loop(sm)
+    if fl is None:
+        return None
+    P1, P2 = mir.mk("param", 1), mir.mk("param", 2)
+    it = fl["iter"]
+    while is_call(it, "into_iter", "iter") and len(it[2]) == 1 and not (it[2][0] in (P1, P2)):
+        it = it[2][0]
+    if not (is_call(it, "zip") and len(it[2]) == 2):
+        return None
+    a, b_ = it[2]
+    while is_call(a, "iter", "into_iter") and len(a[2]) == 1:
+        a = a[2][0]
+    while is_call(b_, "iter", "into_iter") and len(b_[2]) == 1:
+        b_ = b_[2][0]
+    if (a, b_) != (P1, P2):
+        return None
+
+    def is_len(t, p):
+        return (is_call(t, "len") and t[2] and t[2][0] == p) or (t[0] == "unop" and t[1] == "PtrMetadata" and t[2] == p)
+    if not any(at[0] == "binop" and at[1] == "Le" and val is True and is_len(at[2], P2) and is_len(at[3], P1) for (at, val) in fl["pre"]):
+        return None
+    x0, x1 = mir.mk("field", fl["elem"], "0"), mir.mk("field", fl["elem"], "1")
+    kinds = []
+    for (at, val) in fl["body"]:
+        if at[0] == "binop" and at[1] == "Eq" and val is True:
+            for l_, r_ in ((at[2], at[3]), (at[3], at[2])):
+                if r_ == x1:
+                    k = "identity" if l_ == x0 else highbit_preserving(l_, x0)
+                    if k:
+                        kinds.append(k)
+    if len(kinds) != 1 or len(fl["body"]) != 1:
+        return None
+    return v, ("lower" if kinds[0] in ("lower", "identity") else kinds[0])
+
+
 class LenProof:
     """Obligation at one call of the unchecked advance.  Two sources of the conditions that hold at the call:
     the dominating switch atoms of the MIR body (b, site, t) or - preferred - the assumptions of one leaf of the
@@ -131,6 +185,14 @@ class LenProof:
                 self.used.append("%s is %s @bb%d" % (mir.show(e), tv, d))
                 return True
         return False
+
+    def insens_helper(self, e):
+        r = prefix_helper(self.cx, self.crate, e, self.STATE)
+        if r is None or r[0] != self.L[2][0]:
+            return False
+        self._fold_kind = r[1]
+        self.used.append("%s recognised as a prefix comparison up to the fold `%s`" % (short(e[3] or e[1]), r[1]))
+        return True
 
     def nonempty(self):
         S = self.STATE
@@ -181,7 +243,7 @@ class LenProof:
                 kind = closure_is_lowercase(self.cx, self.crate, clo)
                 self._fold_kind = kind
                 return kind is not None
-            if self.has(insens, True):
+            if self.has(insens, True) or self.has(self.insens_helper, True):
                 if getattr(self, "_fold_kind", None) == "highbit":
                     # a fold that may change non-ASCII bytes: every matched input byte is ASCII only if v is
                     self.external.append(("Ascii", mir.show(v)))
